@@ -50,11 +50,16 @@ class Server:
         raise RuntimeError("vsrv did not start: %s" % last)
 
     def _start(self, exe, overrides, env):
-        self.ports = dict(zip(("http", "scgi", "fastcgi"), free_ports(3)))
+        self.ports = {"http": free_ports(1)[0], "scgi": os.path.join(self.dir, "scgi.sock"), "fastcgi": os.path.join(self.dir, "fcgi.sock")}
+        for k in ("scgi", "fastcgi"):
+            try:
+                os.unlink(self.ports[k])
+            except OSError:
+                pass
         cfg = {
             "service": {"list": [{"api": "http", "ip": "127.0.0.1", "port": self.ports["http"]},
-                                 {"api": "scgi", "ip": "127.0.0.1", "port": self.ports["scgi"]},
-                                 {"api": "fastcgi", "ip": "127.0.0.1", "port": self.ports["fastcgi"]}],
+                                 {"api": "scgi", "socket": self.ports["scgi"]},
+                                 {"api": "fastcgi", "socket": self.ports["fastcgi"]}],
                         "worker_threads": 4},
             "http": {"script_names": self.SCRIPTS, "timeout": 5},
             "cache": {"backend": "thread_shared", "limit": 1000},
@@ -86,11 +91,13 @@ class Server:
             if self.proc.poll() is not None:
                 return "died at start: %s" % self.stderr()[-300:]
             try:
-                s = socket.create_connection(("127.0.0.1", self.ports["fastcgi"]), timeout=1)
+                s = socket.create_connection(("127.0.0.1", self.ports["http"]), timeout=1)
                 s.close()
-                return None
+                if os.path.exists(self.ports["fastcgi"]) and os.path.exists(self.ports["scgi"]):
+                    return None
             except OSError:
-                time.sleep(0.02)
+                pass
+            time.sleep(0.02)
         self.proc.kill()
         self.proc.wait()
         return "acceptors did not come up"
@@ -176,18 +183,47 @@ def _merge(a, b):
 class Conn:
     """raw client connection with a known local port (so that the server-side shims can be scheduled for it)"""
 
+    _next_id = {}
+
     def __init__(self, server, proto, r=None, w=None, timeout=10, rcvbuf=None):
         self.server = server
-        self.s = socket.socket(socket.AF_INET, socket.SOCK_STREAM)
-        if rcvbuf:
-            self.s.setsockopt(socket.SOL_SOCKET, socket.SO_RCVBUF, rcvbuf)
-        self.s.setsockopt(socket.IPPROTO_TCP, socket.TCP_NODELAY, 1)
-        self.s.bind(("127.0.0.1", 0))
-        self.port = self.s.getsockname()[1]
+        if proto == "http":
+            self.s = socket.socket(socket.AF_INET, socket.SOCK_STREAM)
+            if rcvbuf:
+                self.s.setsockopt(socket.SOL_SOCKET, socket.SO_RCVBUF, rcvbuf)
+            self.s.setsockopt(socket.IPPROTO_TCP, socket.TCP_NODELAY, 1)
+            self.s.setsockopt(socket.SOL_SOCKET, socket.SO_REUSEADDR, 1)
+            for attempt in range(50):
+                try:
+                    self.s.bind(("127.0.0.1", 0))
+                    break
+                except OSError:
+                    time.sleep(0.1)
+            self.port = self.s.getsockname()[1]
+            target = ("127.0.0.1", server.ports["http"])
+        else:
+            self.s = socket.socket(socket.AF_UNIX, socket.SOCK_STREAM)
+            if rcvbuf:
+                self.s.setsockopt(socket.SOL_SOCKET, socket.SO_RCVBUF, rcvbuf)
+            pid = os.getpid()
+            if pid not in Conn._next_id:
+                Conn._next_id.clear()
+                Conn._next_id[pid] = 100000 + (pid % 20000) * 100000
+            Conn._next_id[pid] += 1
+            self.port = Conn._next_id[pid]
+            self.s.bind(b"\0vc%d" % self.port)
+            target = server.ports[proto]
         if r or w:
             server.sched(self.port, r, w)
         self.s.settimeout(timeout)
-        self.s.connect(("127.0.0.1", server.ports[proto]))
+        for attempt in range(20):
+            try:
+                self.s.connect(target)
+                break
+            except OSError as e:
+                if attempt == 19 or not server.alive():
+                    raise
+                time.sleep(0.05)
         self.buf = b""
 
     def send(self, data):
